@@ -8,7 +8,9 @@ Runtime monitoring, five clauses (DESIGN §6 "C09", reference model R2 = vlib/re
                   central differences at the self-consistent finite-T density; away from the fixed point
                   (P0 = D* + delta) the rank-m Krylov update dP2dt2_m, m = 1..4, against an independent numpy
                   evaluation of the published rank-m kernel update built from finite-difference responses of the
-                  real D[P] map, at T_el = 300 K and on a ladder 5-20 kK that reaches fractional occupations.
+                  real D[P] map, at T_el = 300 K and on a ladder 5-20 kK that reaches fractional occupations;
+                  every row of zero-padded mixed-size batches (incl. padded anions, T_el up to 8-12 kK) against the
+                  same molecule alone on the same call path (energies, entropy, force, D, dP2dt2, electron count).
 (b) fixed point   the REAL XL_BOMD/KSA_XL_BOMD one_step/_propagate_P/circular buffer, driven with the
                   electronic-structure call replaced by a stub that returns D* = P(0) and zero force:
                   every k in 3..9 x every start step i0 in 0..k x a context rebuilt at every step_done;
@@ -39,7 +41,9 @@ RULE = ("cases: 'recur' = (variant in {XL_BOMD, KSA_XL_BOMD, XL_BOMD+Langevin}, 
         "compared at least one executed step/call (recur: >= 4 buffer wraps driven; consist: SCF reference converged; "
         "stationary: |F| < 1e-6 reached; dyn: all four trajectories completed; freeenergy = (molecule, T_el, rank): "
         "finite-T self-consistency reached and occupations fractional by >= 1e-4; krylov = (molecule, method, "
-        "perturbation seed): residual D[P0]-P0 non-zero and all four ranks compared); distinct by SHA-1 of the case")
+        "perturbation seed): residual D[P0]-P0 non-zero and all four ranks compared; batchrow = (zero-padded mixed-size "
+        "batch incl. ions, method, T_el, plain / Krylov rank): every row compared with the same molecule alone on the "
+        "XL-BOMD call path); distinct by SHA-1 of the case")
 ASSUMPTIONS = [
     "float64 CPU, one thread",
     "coefficient table of Niklasson et al. JCP 130, 214109 (2009) typed from recollection in vlib/ref/xlverlet.py and "
@@ -62,7 +66,8 @@ REQUIRED_MONITORS = ["consistency_calls_compared", "fixedpoint_steps_checked", "
                      "recurrence_steps_compared", "recurrence_restarts_checked", "real_checkpoint_resumes",
                      "impulse_coefficients_compared", "stability_polynomials_checked", "closed_loop_steps_driven",
                      "stationary_real_steps", "dyn_families_judged", "free_energy_directions_checked",
-                     "krylov_updates_compared", "krylov_fractional_cases_compared"]
+                     "krylov_updates_compared", "krylov_fractional_cases_compared",
+                     "batch_padded_rows_compared", "batch_padded_fractional_or_ion_rows"]
 CASE_TIMEOUT = 900.0
 ORDERS = (3, 4, 5, 6, 7, 8, 9)
 VARIANTS = ("xl", "ksa", "xl_damp")
@@ -91,6 +96,14 @@ TOL_FE = 4e-5
 # finite differences (h = 1e-4, unit-norm directions) of the real map P -> D[P]: truncation h^2/6 |D(3)| ~ 1e-8, eigh
 # noise 1e-15/h = 1e-11; measured agreement with the package 2e-12 .. 5e-11 of |f|, f = D[P0]-P0.  The smallest effect
 # looked for (one Krylov direction missing at rank 4) is 7e-4 .. 1e-3 of |f|.
+# (a) batch row vs the same molecule alone on the XL-BOMD call path.  Fermi_Q stops its chemical-potential Newton
+# iteration when EVERY row of the batch is within 1e-9 electrons, so a row alone may stop one iteration earlier than in
+# the batch: |delta N| <= 1e-9 per spin => trace differs by <= 4e-9, energies by <= |eps_F| * 4e-9 ~ 4e-8 eV.  Bounds
+# are 5x that; LAPACK on differently padded matrices contributes 1e-12 .. 1e-9 (C05's measurement).
+TOL_BR_E = 2e-7       # eV     Etot, Eelec, Electronic_entropy
+TOL_BR_F = 2e-6       # eV/A
+TOL_BR_D = 1e-7       #        density and dP2dt2 blocks
+TOL_BR_N = 2e-8       #        electron count (trace) and Fermi occupations
 KQ_H = 1e-4
 TOL_KQ = 1e-6         # |dP2dt2_m - reference_m| / |f|   and   |Krylov_Error_m - reference residual_m|
 # with fractional occupations Canon_DM_PRT is a 2^10-th order recursive expansion of the Fermi response, not the exact
@@ -192,6 +205,26 @@ def gen_cases(tier, seed):
     for name, method, T in lad:
         cases.append({"kind": "krylov", "mol": name, "method": method, "T_el": T,
                       "geom_seed": int(g.integers(0, 2**31)), "delta": 1e-3, "full_obs": False})
+    # ---- (a) rows of zero-padded mixed-size batches against the same molecule alone, on the XL-BOMD call path
+    if tier == "quick":
+        br = [(["H2O", "CH2O"], "AM1", 5000.0, 2), (["H2O", "CH2O"], "AM1", 8000.0, 3), (["CH2O", "H2O"], "PM3", 8000.0, 1),
+              (["OH-", "CH4"], "AM1", 1500.0, 2), (["H2O", "OH-", "CH3OH"], "PM3", 1500.0, 3),
+              (["H2O", "CH2O"], "AM1", 300.0, None), (["OH-", "H2O"], "MNDO", 300.0, None)]
+    else:
+        br = []
+        for i, (names, method) in enumerate(((["H2O", "CH2O"], "AM1"), (["CH2O", "H2O"], "PM3"), (["HF", "NH3", "CH3OH"], "AM1"),
+                                             (["NH3", "C2H4"], "MNDO"), (["H2", "H2O", "HCN"], "PM3"),
+                                             (["HF", "CH3F"], "PM6_SP"))):
+            for T in (5000.0, 8000.0, 12000.0):
+                br.append((names, method, T, 1 + (i + int(T / 1000)) % 4))
+            br.append((names, method, 300.0, None))
+        for names, method in ((["OH-", "CH4"], "AM1"), (["H2O", "OH-", "CH3OH"], "PM3"), (["OH-", "H2O"], "MNDO"),
+                              (["CN-", "HCOO-", "CH3NH2"], "AM1"), (["NH4+", "CH3OH"], "PM3"), (["H3O+", "OH-", "C2H6"], "AM1")):
+            for T, rank in ((1500.0, 2), (5000.0, 3), (300.0, None)):
+                br.append((names, method, T, rank))
+    for names, method, T, rank in br:
+        cases.append({"kind": "batchrow", "mols": names, "method": method, "T_el": T, "rank": rank,
+                      "geom_seed": int(g.integers(0, 2**31))})
     # ---- (b)(c)(d) stub-driven, exhaustive: identical in both tiers (the space is finite and is covered)
     for variant in VARIANTS:
         for k in ORDERS:
@@ -202,7 +235,7 @@ def gen_cases(tier, seed):
                 cases.append({"kind": "recur", "variant": variant, "k": k, "seq_seed": int(g.integers(0, 2**31)),
                               "mol": ["NH3", "CH3OH", "H2O"][(k + len(variant)) % 3]})
     # expensive first: dyn, free energy, recur by decreasing k, then the rest
-    cost = {"dyn": 0, "freeenergy": 1, "recur": 2, "stationary": 3, "krylov": 4, "consist": 5}
+    cost = {"dyn": 0, "freeenergy": 1, "recur": 2, "stationary": 3, "krylov": 4, "consist": 5, "batchrow": 6}
     order = sorted(range(len(cases)), key=lambda i: (cost[cases[i]["kind"]], -cases[i].get("k", 0), i))
     return [cases[i] for i in order]
 
@@ -224,6 +257,27 @@ class _Margins:
 
 
 NROWS = 2   # the stub-driven harness works on a zero-padded batch of two different molecules
+
+
+def _nmax(*vals):
+    """max that PROPAGATES non-finite values (python's max / `x > y` silently drop NaN): returns NaN as soon as any
+    argument (scalars or iterables of scalars) is NaN or infinite, so that the clause judged on it is violated."""
+    flat = []
+    for v in vals:
+        if isinstance(v, (int, float, np.floating, np.integer)):
+            flat.append(float(v))
+        else:
+            flat.extend(float(x) for x in v)
+    if not flat:
+        return 0.0
+    a = np.asarray(flat, float)
+    return float("nan") if not np.all(np.isfinite(a)) else float(a.max())
+
+
+def _excess(x, ref=1.0):
+    """max(0, x - ref), NaN-propagating"""
+    x = float(x)
+    return float("nan") if not math.isfinite(x) else max(0.0, x - ref)
 
 
 def _sym(g, n, scale=1.0):
@@ -496,7 +550,7 @@ def _run_recur(case):
         for n in range(1, Nb + 1):
             d = float(np.abs(stub.P[n] - Dstar).max())
             mon["fixedpoint_steps_checked"] += 1
-            if d > worst:
+            if d > worst or d != d:       # NaN is taken and then sticks (nothing compares greater than NaN)
                 worst, at = d, n
         if mg.upd("b_fixed_point", worst / scale_b, TOL_FIX):
             bad("fixed-point", "xl-fixed-point-drift", i0=i0, step=at, deviation=worst)
@@ -504,7 +558,7 @@ def _run_recur(case):
             cont = min(Nb - t, m + 2)     # one full wrap after the restart: every slot is read and rewritten
             st2 = H.resume(_supply_const(Dstar, ksa), snaps[t], i0 + t, cont)
             mon["stub_calls"] += cont
-            w2 = max(float(np.abs(st2.P[n] - Dstar).max()) for n in range(t + 1, t + cont + 1))
+            w2 = _nmax(float(np.abs(st2.P[n] - Dstar).max()) for n in range(t + 1, t + cont + 1))
             mon["fixedpoint_restarts_checked"] += 1
             if mg.upd("b_fixed_point_after_restart", w2 / scale_b, TOL_FIX):
                 bad("fixed-point-restart", "xl-fixed-point-drift-after-restart", i0=i0, step_done=i0 + t, deviation=w2)
@@ -529,7 +583,7 @@ def _run_recur(case):
     if not (kappa_eff > 1e-3):
         bad("kappa-range", "xl-kappa-not-positive", kappa_eff=kappa_eff, kappa_table=kappa_tab)
     mg.upd("c_kappa_eff_over_table_" + form, kappa_eff, kappa_tab * (1 + 1e-12))
-    if kappa_eff > kappa_tab * (1 + 1e-12):
+    if not kappa_eff <= kappa_tab * (1 + 1e-12):
         bad("kappa-range", "xl-kappa-above-published", kappa_eff=kappa_eff, kappa_table=kappa_tab)
     for i0 in range(m):
         stub, snaps, _ = H.drive(_supply_seq(Ds, Ws, ksa), i0, Nc, snapshots=True)
@@ -540,18 +594,18 @@ def _run_recur(case):
         for n in range(1, Nc + 1):
             d = float(np.abs(stub.P[n] - ref[n]).max())
             mon["recurrence_steps_compared"] += 1
-            if d > worst:
+            if d > worst or d != d:
                 worst, at = d, n
         if mg.upd("c_sequence_vs_published", worst / pmax, TOL_REC):
             bad("recurrence", "xl-recurrence-differs-from-published", i0=i0, first_bad_step=next(
-                n for n in range(1, Nc + 1) if np.abs(stub.P[n] - ref[n]).max() / pmax > TOL_REC),
+                (n for n in range(1, Nc + 1) if not np.abs(stub.P[n] - ref[n]).max() / pmax <= TOL_REC), None),
                 worst_step=at, deviation=worst, wraps_at_worst=at // m, kappa_eff=kappa_eff)
         for t in range(1, Nc):
             cont = min(Nc - t, m + 2)
             st2 = H.resume(_supply_seq(Ds, Ws, ksa), snaps[t], i0 + t, cont)
             mon["stub_calls"] += cont
-            w2 = max(float(np.abs(st2.P[n] - stub.P[n]).max()) for n in range(t + 1, t + cont + 1))
-            w3 = max(float(np.abs(st2.P[n] - ref[n]).max()) for n in range(t + 1, t + cont + 1))
+            w2 = _nmax(float(np.abs(st2.P[n] - stub.P[n]).max()) for n in range(t + 1, t + cont + 1))
+            w3 = _nmax(float(np.abs(st2.P[n] - ref[n]).max()) for n in range(t + 1, t + cont + 1))
             mon["recurrence_restarts_checked"] += 1
             if mg.upd("c_restart_vs_uninterrupted", w2 / pmax, TOL_REC) or \
                     mg.upd("c_restart_vs_published", w3 / pmax, TOL_REC):
@@ -572,15 +626,18 @@ def _run_recur(case):
         for t in range(L):
             d = pert.P[n0 + 1 + t] - base.P[n0 + 1 + t]
             ht = float((d * E).sum() / EE)
-            res = max(res, float(np.abs(d - ht * E).max()))
+            res = _nmax(res, float(np.abs(d - ht * E).max()))
             h.append(ht)
         pm = max(1.0, max(float(np.abs(base.P[n]).max()) for n in base.P))
         if mg.upd("c_impulse_proportional", res / pm, 1e-12):
             bad("impulse-linearity", "xl-response-not-proportional", impulse_at=n0, residual=res)
+        if not abs(h[0]) > 1e-12:       # no response at all (or NaN): a verdict, not a ZeroDivisionError
+            bad("kappa-range", "xl-kappa-not-positive", kappa_eff=h[0], kappa_table=kappa_tab, impulse_at=n0)
+            continue
         aD, a = R2.impulse_to_coefficients(h)
         eff_by_phase[n0] = (aD, a)
         mg.upd("c_kappa_eff_over_table_" + form, aD, kappa_tab * (1 + 1e-12))
-        if aD > kappa_tab * (1 + 1e-12) or not aD > 1e-3:
+        if not aD <= kappa_tab * (1 + 1e-12) or not aD > 1e-3:
             bad("kappa-range", "xl-kappa-above-published" if aD > kappa_tab else "xl-kappa-not-positive",
                 kappa_eff=aD, kappa_table=kappa_tab, impulse_at=n0)
         if mg.upd("c_kappa_eff_phase_spread", abs(aD - kappa_eff), TOL_COEF * 10):
@@ -608,7 +665,7 @@ def _run_recur(case):
                 pmax = max(1.0, max(float(np.abs(ref[n]).max()) for n in ref))
             if sorted(basep) != list(range(1, N + 1)):
                 return {"inconclusive": "real run recorded steps %s, expected 1..%d" % (sorted(basep)[:3], N)}
-            w = max(float(np.abs(basep[n] - ref[n]).max()) for n in range(1, N + 1))
+            w = _nmax(float(np.abs(basep[n] - ref[n]).max()) for n in range(1, N + 1))
             mon["real_checkpoint_steps_compared"] += N
             if mg.upd("%s_real_run_vs_reference" % tag, w / pmax, TOL_FIX if tag == "b" else TOL_REC):
                 bad("real-run-%s" % ("fixed-point" if tag == "b" else "recurrence"),
@@ -621,7 +678,7 @@ def _run_recur(case):
                 if sorted(rp) != list(range(s + 1, N + 1)):
                     bad("resume-steps", "xl-resume-wrong-step-range", step_done=s, got=[min(rp or [0]), max(rp or [0])])
                     continue
-                w2 = max(float(np.abs(rp[n] - basep[n]).max()) for n in rp)
+                w2 = _nmax(float(np.abs(rp[n] - basep[n]).max()) for n in rp)
                 nbit += int(all(np.array_equal(rp[n], basep[n]) for n in rp))
                 mon["real_checkpoint_resumes"] += 1
                 mon["real_checkpoint_steps_compared"] += len(rp)
@@ -646,7 +703,7 @@ def _run_recur(case):
     # live tensor: x(n+1) = [coeff[0] + coeff_D (1-gamma)] x(n) + sum_{j>=1} coeff[j] x(n-j)   (both variants)
     worst, at = R2.max_root_modulus(list(live[:m]), live_D, grid)
     mon["stability_polynomials_checked"] += len(grid)
-    if mg.upd("d_live_root_excess", max(0.0, worst - 1.0), TOL_ROOT):
+    if mg.upd("d_live_root_excess", _excess(worst), TOL_ROOT):
         bad("stability-live-roots", "xl-unstable-root", modulus=worst, gamma=at, source="md.coeff/md.coeff_D")
     # fixed-point condition on the live tensor: sum of coefficients = 1 exactly (sum c_j = 0)
     s1 = float(live[:m].sum() + live_D)
@@ -659,7 +716,7 @@ def _run_recur(case):
             ah[0] -= aD  # so that the generic formula a_0 + a_D (1-gamma) gives a_0 - a_D gamma
         w, at = R2.max_root_modulus(ah, aD, grid)
         mon["stability_polynomials_checked"] += len(grid)
-        if mg.upd("d_measured_root_excess", max(0.0, w - 1.0), TOL_ROOT):
+        if mg.upd("d_measured_root_excess", _excess(w), TOL_ROOT):
             bad("stability-measured-roots", "xl-unstable-root", modulus=w, gamma=at, impulse_at=n0)
     # closed loop: 3000 steps, element-wise response factors covering the grid (2 rows x 16x16 -> 272 free elements)
     iu = np.triu_indices(nb)
@@ -702,7 +759,7 @@ def _run_recur(case):
                 early = np.maximum(early, np.abs(xr))
             if j >= 2000:
                 late = np.maximum(late, np.abs(xr))
-            dev = max(dev, float((np.abs(stub.P[j + 1] - new) / np.abs(x0)).max()))
+            dev = _nmax(dev, float((np.abs(stub.P[j + 1] - new) / np.abs(x0)).max()))
             mon["closed_loop_steps_driven"] += 1
         ratio = amp / np.abs(x0)
         ij = np.unravel_index(int(np.argmax(ratio)), ratio.shape)
@@ -780,6 +837,11 @@ def _run_consist(case):
         occ = run.npy(getattr(mol, "Fermi_occ", None))
         if label != "plain" and occ is not None:
             frac = float(np.abs(occ - np.round(occ)).max())
+            if not math.isfinite(frac) or not np.all(np.isfinite(ent)):
+                viol.append({"clause": "consistency-not-finite", "mech": "xl-call-not-finite",
+                             "detail": {"variant": label, "what": "Fermi_occ / Electronic_entropy", "method": method,
+                                        "mols": case["mols"]}})
+                continue
             if frac > 1e-12 or float(np.abs(ent).max()) > 0.0:
                 mon["consistency_calls_ineligible"] += 1
                 obs["variants"][label] = "ineligible: fractional occupation %.2e" % frac
@@ -868,12 +930,20 @@ def _run_freeenergy(case):
                 es(mol, P0=P.clone(), dm_prop="XL-BOMD", xl_bomd_params=dict(xl))
                 calls[0] += 1
                 res = float((mol.dm - P).abs().max())
+                if not math.isfinite(res):
+                    return None, P, res
                 if res < 2e-11:
                     return mol, P, res
                 P = P + mol.dP2dt2
         return None, P, res
 
     mol, P, res = solve(X)
+    if mol is None and not math.isfinite(res):
+        return {"nontrivial": True, "monitors": {"free_energy_xl_calls": calls[0]},
+                "violations": [{"clause": "free-energy-not-finite", "mech": "xl-call-not-finite",
+                                "detail": {"mol": case["mol"], "T_el": case["T_el"], "rank": case["rank"],
+                                           "what": "D(P) - P during the finite-T self-consistency iteration",
+                                           "coords": X.tolist()}}]}
     if mol is None:
         return {"ineligible": "finite-T self-consistency not reached (residual %.1e)" % res}
     occ = run.npy(mol.Fermi_occ)
@@ -919,6 +989,117 @@ def _run_freeenergy(case):
     return {"nontrivial": True, "violations": viol, "margins": mg.m,
             "monitors": {"free_energy_directions_checked": ndone, "free_energy_xl_calls": calls[0]},
             "cells": ["a/free-energy/%s/rank%d" % (case["method"], case["rank"])], "obs": obs}
+
+
+def _run_batchrow(case):
+    """clause (a), batch transparency ON THE XL-BOMD CALL PATH: every row of a zero-padded mixed-size batch against
+    the same molecule evaluated ALONE through the same call (same P0 block), at electronic temperatures where the
+    occupations of some row become fractional, and with a padded anion; plus the electron count of every row, and the
+    SCF comparison for rows whose occupations are integral."""
+    import torch
+    from vlib import run
+    method, T_el, rank = case["method"], float(case["T_el"]), case.get("rank")
+    g = np.random.default_rng(case["geom_seed"])
+    mols, charges = [], []
+    for name in case["mols"]:
+        Z, X, q, mult = gen.molecule(name)
+        Xd = gen.distort(X, g, sigma=0.04)
+        Xd = Xd @ gen.generic_rotation(Xd, g).T
+        mols.append((Z, Xd))
+        charges.append(q)
+    S, C = gen.pad_batch(mols)
+    nmax = len(S[0])
+    sett = run.settings(method, eps=1e-11, converger=(2,))
+    xl = {"k": 6}
+    if rank:
+        xl.update({"max_rank": int(rank), "err_threshold": 0.0, "T_el": T_el})
+    with run.quiet():
+        molb, esb, _ = run.build(S, C, sett, charges=charges)
+        esb(molb)
+    if esb.notconverged is not None and bool(torch.as_tensor(esb.notconverged).any()):
+        return {"ineligible": "reference SCF of the batch not converged"}
+    Dstar = molb.dm.detach().clone()
+    Escf = run.npy(molb.Etot)
+    Fscf = run.npy(molb.force)
+
+    def grab(mol):
+        o = {"Etot": run.npy(mol.Etot), "Eelec": run.npy(mol.Eelec), "force": run.npy(mol.force), "dm": run.npy(mol.dm),
+             "ent": run.npy(mol.Electronic_entropy)}
+        o["W"] = run.npy(mol.dP2dt2) if rank else None
+        o["occ"] = run.npy(mol.Fermi_occ) if rank else None
+        return o
+
+    with run.quiet():
+        esb(molb, P0=Dstar.clone(), dm_prop="XL-BOMD", xl_bomd_params=dict(xl))
+    B = grab(molb)
+    viol, mg, cells = [], _Margins(), []
+    mon = {"batch_rows_vs_alone_compared": 0, "batch_padded_rows_compared": 0, "batch_padded_fractional_or_ion_rows": 0,
+           "batch_rows_vs_scf_compared": 0}
+    obs = {"mols": case["mols"], "method": method, "T_el": T_el, "rank": rank, "rows": {}}
+    tore = {1: 1, 3: 1, 4: 2, 5: 3, 6: 4, 7: 5, 8: 6, 9: 7, 11: 1, 12: 2, 13: 3, 14: 4, 15: 5, 16: 6, 17: 7}
+    for b, ((Z, Xd), q) in enumerate(zip(mols, charges)):
+        n = len(Z)
+        nb = 4 * n
+        padded = n < nmax
+        with run.quiet():
+            mola, esa, _ = run.build(Z, Xd, sett, charges=q)
+            esa(mola, P0=Dstar[b:b + 1, :nb, :nb].clone(), dm_prop="XL-BOMD", xl_bomd_params=dict(xl))
+        A = grab(mola)
+        frac = 0.0
+        if rank:
+            frac = float(np.abs(A["occ"][0] - np.round(A["occ"][0])).max())
+        nel = sum(tore[z] for z in Z) - q
+        row = {"padded": padded, "charge": q, "max_fractional_occupation_alone": frac}
+        tag = "padded-row" if padded else "largest-row"
+        mech = "xl-padded-row-differs-from-alone" if padded else "xl-batch-row-differs-from-alone"
+        fails = []
+        # every comparison goes through _Margins.upd, which treats a non-finite value as a violation
+        checks = [("Etot", abs(float(B["Etot"][b]) - float(A["Etot"][0])), TOL_BR_E),
+                  ("Eelec", abs(float(B["Eelec"][b]) - float(A["Eelec"][0])), TOL_BR_E),
+                  ("Electronic_entropy", abs(float(B["ent"][b]) - float(A["ent"][0])), TOL_BR_E),
+                  ("force", float(np.abs(B["force"][b, :n] - A["force"][0]).max()), TOL_BR_F),
+                  ("density", float(np.abs(B["dm"][b, :nb, :nb] - A["dm"][0]).max()), TOL_BR_D),
+                  ("electron-count", abs(float(np.trace(B["dm"][b])) - nel), TOL_BR_N),
+                  ("electron-count-alone", abs(float(np.trace(A["dm"][0])) - nel), TOL_BR_N)]
+        if padded:
+            out_block = B["dm"][b].copy()
+            out_block[:nb, :nb] = 0.0
+            checks.append(("density-on-padding-orbitals", float(np.abs(out_block).max()), 1e-12))
+            checks.append(("force-on-padding-atoms", float(np.abs(B["force"][b, n:]).max()), 1e-300))
+        if rank:
+            checks.append(("dP2dt2", float(np.abs(B["W"][b, :nb, :nb] - A["W"][0]).max()), TOL_BR_D))
+            no = A["occ"].shape[1]
+            checks.append(("Fermi_occ", float(np.abs(B["occ"][b, :no] - A["occ"][0]).max()), TOL_BR_N))
+        for what, val, tol in checks:
+            row[what] = val
+            if mg.upd("a_batch_%s_%s" % (what.replace("-", "_"), "vs_alone" if "count" not in what and "padding" not in what
+                                         else "abs"), val, tol):
+                fails.append((what, val, tol))
+        mon["batch_rows_vs_alone_compared"] += 1
+        mon["batch_padded_rows_compared"] += int(padded)
+        mon["batch_padded_fractional_or_ion_rows"] += int(padded and (frac > 1e-6 or q != 0))
+        # against SCF where the occupations are integral (plain path: always)
+        if frac <= 1e-12 and float(abs(A["ent"][0])) == 0.0:
+            dE = abs(float(B["Etot"][b]) - float(Escf[b]))
+            dF = float(np.abs(B["force"][b, :n] - Fscf[b, :n]).max())
+            mon["batch_rows_vs_scf_compared"] += 1
+            row["dE_vs_scf"], row["dF_vs_scf"] = dE, dF
+            if mg.upd("a_batch_row_dEtot_vs_scf", dE, TOL_E):
+                fails.append(("Etot-vs-SCF", dE, TOL_E))
+            if mg.upd("a_batch_row_dForce_vs_scf", dF, TOL_F):
+                fails.append(("force-vs-SCF", dF, TOL_F))
+        cells.append("a/batch-row/%s/%s/T%g/%s/%s%s" % (method, "rank%d" % rank if rank else "plain", T_el, tag,
+                                                       "fractional" if frac > 1e-6 else "integer",
+                                                       "/ion" if q != 0 else ""))
+        obs["rows"]["%d:%s" % (b, case["mols"][b])] = row
+        for what, val, tol in fails:
+            viol.append({"clause": "batch-row-%s" % what, "mech": mech,
+                         "detail": {"row": b, "mol": case["mols"][b], "padded": padded, "charge": q, "value": val,
+                                    "bound": tol, "method": method, "T_el": T_el, "rank": rank, "mols": case["mols"],
+                                    "max_fractional_occupation_alone": frac,
+                                    "species": np.asarray(S).tolist(), "coords": np.asarray(C).tolist()}})
+    return {"nontrivial": mon["batch_rows_vs_alone_compared"] > 0, "violations": viol, "margins": mg.m, "monitors": mon,
+            "cells": cells, "obs": obs}
 
 
 def _run_krylov(case):
@@ -967,6 +1148,11 @@ def _run_krylov(case):
     D0 = real[1][0]
     f = D0 - P0
     fn = float(np.linalg.norm(f))
+    if not math.isfinite(fn) or not math.isfinite(frac):
+        return {"nontrivial": True, "monitors": {"krylov_xl_calls": ncalls[0]},
+                "violations": [{"clause": "krylov-not-finite", "mech": "xl-call-not-finite",
+                                "detail": {"mol": case["mol"], "method": case["method"], "T_el": case["T_el"],
+                                           "what": "D[P0] or Fermi_occ", "coords": X.tolist()}}]}
     if not fn > 1e-6:
         return {"ineligible": "residual D[P0]-P0 vanishes (%.1e): nothing to precondition" % fn}
 
@@ -1026,7 +1212,7 @@ def _run_krylov(case):
             viol.append({"clause": "krylov-reported-error-rank%d" % r, "mech": "ksa-reported-kernel-error-differs",
                          "detail": dict(witness, rank=r, reported=kerr, independent=ref[r][1])})
         if prev_err is not None:  # least-squares residual over nested subspaces cannot increase
-            if mg.upd("a_krylov_error_monotone", max(0.0, kerr - prev_err), 1e-9):
+            if mg.upd("a_krylov_error_monotone", _excess(kerr, prev_err), 1e-9):
                 viol.append({"clause": "krylov-error-monotone", "mech": "ksa-kernel-residual-not-monotone",
                              "detail": dict(witness, rank=r, error=kerr, previous=prev_err)})
         prev_err = kerr
@@ -1039,7 +1225,7 @@ def _run_krylov(case):
         mg.upd("a_krylov_rank1_gain_low", KQ_C1[0], max(c1, 1e-300))
         mg.upd("a_krylov_rank1_gain_high", c1, KQ_C1[1])
         mg.upd("a_krylov_rank1_parallel_to_residual", par, 1e-9)
-        if not (KQ_C1[0] <= c1 <= KQ_C1[1]) or par > 1e-9:
+        if not (KQ_C1[0] <= c1 <= KQ_C1[1]) or not par <= 1e-9:
             viol.append({"clause": "krylov-rank1-gain", "mech": "ksa-rank1-update-degenerate",
                          "detail": dict(witness, c1=c1, non_parallel_part=par,
                                         note="c1 = 0 means the auxiliary density is decoupled from D")})
@@ -1148,8 +1334,8 @@ def _run_stationary(case):
     if len(xl_calls) != nsteps:
         return {"inconclusive": "expected %d XL-BOMD calls, watched %d" % (nsteps, len(xl_calls))}
     D0 = rec[0][2]
-    w1 = max(float((P - D).abs().max()) for _, P, D, _ in xl_calls)
-    w2 = max(float((P - D0).abs().max()) for _, P, D, _ in xl_calls)
+    w1 = _nmax(float((P - D).abs().max()) for _, P, D, _ in xl_calls)
+    w2 = _nmax(float((P - D0).abs().max()) for _, P, D, _ in xl_calls)
     dx = float((mol.coordinates.detach() - torch.as_tensor(Xr)[None]).abs().max())
     if mg.upd("b_real_stationary_P_minus_D", w1, TOL_STAT):
         viol.append({"clause": "stationary-real-run", "mech": "xl-fixed-point-drift",
@@ -1222,7 +1408,7 @@ def _run_dyn(case):
     detail = {"engine": engine, "k": k, "mol": case["mol"], "dt": dt0, "std": std, "rms_err": rms, "dist": dist,
               "dist_max": dmax}
     # same initial condition => identical step-0 energy for every dt (it is the SCF energy + Ek)
-    if mg.upd("e_step0_energy_equal", max(abs(E0[f] - E0[1]) for f in fam), 1e-8):
+    if mg.upd("e_step0_energy_equal", _nmax(abs(E0[f] - E0[1]) for f in fam), 1e-8):
         viol.append({"clause": "dyn-initial-energy", "mech": "xl-initial-energy-depends-on-dt", "detail": detail})
     if mg.upd("e_step0_energy_vs_bomd", abs(E0[1] - float(Eb[0])), 1e-7):
         viol.append({"clause": "dyn-initial-energy-vs-bomd", "mech": "xl-energy-differs-from-scf-at-converged-density",
@@ -1267,6 +1453,8 @@ def run_case(case):
         return _run_freeenergy(case)
     if kind == "krylov":
         return _run_krylov(case)
+    if kind == "batchrow":
+        return _run_batchrow(case)
     raise ValueError("unknown case kind %r" % kind)
 
 
